@@ -61,6 +61,15 @@ def gen(ctx, rng):
             y = np.round(np.repeat(rng.normal(2000, 900, n // 12 + 1), 12)[:n] + rng.normal(0, 40, n))
         cases.append(dict(kind="wcvp", y=[float(v) for v in y], nodata=-3000.0, llas=[float(v) for v in np.arange(-1.0, 1.6, 0.5)],
                           robust=bool(it % 4 < 2), n=n, miss=0, degenerate=False, p=float(rng.choice([0.99999, 0.9999, 0.999, 0.00001]))))
+    # short series with one spike: most residuals nearly equal, the robust scale collapses (the reweighting must not switch
+    # all but one cell off)
+    for it in range(90 if ctx.thorough else 30):
+        n = int(rng.integers(5, 10))
+        y = np.round(rng.normal(1100, 60, n))
+        y[int(rng.integers(0, n))] += float(rng.choice([300, 500, -400, 900]))
+        llas = [float(v) for v in np.arange(0.0, float(rng.choice([1.5, 2.5, 3.5])), 1.0)]
+        cases.append(dict(kind="wcvp" if it % 3 == 0 else "wcv", y=[float(v) for v in y], nodata=-3000.0, llas=llas, robust=True, n=n, miss=0,
+                          degenerate=False, p=0.9 if it % 3 == 0 else None))
     acc = []
     for k in range(8 if ctx.thorough else 4):
         T = int(rng.integers(10, 40))
